@@ -655,15 +655,15 @@ impl Drop for CmdScratch {
     }
 }
 
-struct ProcOut {
-    code: Option<i32>,
-    signal: Option<i32>,
-    timeout: bool,
-    stdout: String,
-    stderr: String,
+pub struct ProcOut {
+    pub code: Option<i32>,
+    pub signal: Option<i32>,
+    pub timeout: bool,
+    pub stdout: String,
+    pub stderr: String,
 }
 
-fn run_in(bin: &str, cwd: &Path, args: &[String], timeout_ms: u64) -> Result<ProcOut, String> {
+pub fn run_in(bin: &str, cwd: &Path, args: &[String], timeout_ms: u64) -> Result<ProcOut, String> {
     use std::io::Read;
     use std::os::unix::process::ExitStatusExt;
     use std::process::{Command, Stdio};
